@@ -19,6 +19,11 @@ ENGINES = [
                        "stress under ASan+UBSan and TSan"},
 ]
 
+ENGINES.append({"name": "H3-hal", "path": "harness/hal_harness.c + engines/hal.py", "serves_properties": ["C11"],
+                "kind_free_text": "real HAL camera.c/storage.c/driver.c against a recording, answer-scripted mock driver "
+                                  "(device_manager_get_driver interposed at link time); bounded-exhaustive + random call "
+                                  "sequences under ASan+UBSan"})
+
 CHECKS = {
     "C01": dict(
         engine="H1-channel", technique="runtime monitoring: reference-model oracle over controlled interleavings + sanitizer stress",
@@ -46,6 +51,16 @@ CHECKS = {
              "violations only with a logical witness (racing op finished, writer still inside the wait, probe "
              "notification releases it).",
         note="fair pthread scheduling assumed; only suspension points that exist in the code are used; unbounded 'eventually' is not decided"),
+    "C11": dict(
+        engine="H3-hal", technique="runtime monitoring: protocol automaton in a mock driver + ASan on freed device objects, bounded-exhaustive call sequences",
+        level="exploration", design_ref="DESIGN.md section 4 / H3 / C11",
+        text="Every HAL call sequence up to length 5 (thorough: camera 7, storage 6) x every driver answer is executed "
+             "against a mock driver that enforces 'no stop without successful start, no frame/append outside running, "
+             "one close per open, nothing after close'; device objects are freed in close so ASan reports any later "
+             "touch; the HAL's reported state is compared with the state implied by the driver's answers after every "
+             "call. Longer random sequences add get/meta/reserve/re-open and open/describe failures. Exhaustive only "
+             "within the stated length bound.",
+        note="devices with missing interface functions are outside the quantifier; ASan quarantine bounds use-after-free detection"),
 }
 
 PENDING_REASON = "check not built yet in this round (planned in DESIGN.md section 4; will be claimed once its harness exists)"
